@@ -184,6 +184,16 @@ func typed(v any) any {
 	return v
 }
 
+// isStructMap: structs() turns this map into a struct.
+func isStructMap(m map[string]any) bool {
+	for k := range m {
+		if structSafe[k] == "" {
+			return false
+		}
+	}
+	return len(m) > 0
+}
+
 var structSafe = map[string]string{"a": "A", "b": "B", "c": "C", "x": "X"}
 
 // structs converts maps whose keys are all identifier-safe into reflect.StructOf values
@@ -334,6 +344,10 @@ func Run(cs Case, c *vrt.Ctx) {
 	c.Sample(map[string]any{"path": cs.Path.String(), "rep": cs.Rep, "data": canon.String(data, canon.Value), "get": gs})
 	tags = append(tags, arb)
 	ordered := res.Ordered && res.DontCare == ""
+	if cs.Rep == "struct" && !ordered && res.DontCare == "" {
+		// the fields of a struct have an order (structs() declares them in sorted key order)
+		ordered = jpx.EvalOrderedMaps(cs.Path, data, isStructMap).Ordered
+	}
 	check := func(where string, f func()) bool {
 		if pv, stack := vrt.Catch(f); pv != nil {
 			c.Fail("panic", where, fmt.Sprintf("%v at %s; %s", pv, stack, desc), tags...)
@@ -573,6 +587,73 @@ func drawCase(t *rapid.T) Case {
 		rep = r // debugging aid only
 	}
 	return Case{Path: p, Data: wx.Enc(data), Rep: rep, Max: rapid.IntRange(0, 3).Draw(t, "max")}
+}
+
+// TestEnumReps is exhaustive over a small scope: every container kind the representations
+// produce ([]int64, []string, []map[string]any, [3]any, struct, pointer to struct, and their
+// plain counterparts) at the root, inside an array and inside a map, under every fragment kind
+// as last fragment and followed by a child / index / wildcard step, on all five representations.
+// The evaluators carry one copy of the reflection code each; a change to one copy for one
+// container kind is met here by construction.
+func TestEnumReps(t *testing.T) {
+	m := func(kv ...any) map[string]any {
+		out := map[string]any{}
+		for i := 0; i+1 < len(kv); i += 2 {
+			out[kv[i].(string)] = kv[i+1]
+		}
+		return out
+	}
+	shapes := []any{
+		[]any{int64(10), int64(20), int64(30), int64(40)}, // []int64
+		[]any{"p", "q"}, // []string
+		[]any{m("a", int64(1)), m("a", int64(2), "b", int64(3))},                   // []map[string]any
+		[]any{int64(10), m("a", int64(5)), []any{int64(7), int64(8)}},              // [3]any
+		m("a", int64(1), "b", []any{int64(5), int64(6)}, "c", m("a", int64(2))),    // struct
+		[]any{m("a", int64(1), "x", nil), m("a", int64(2), "b", m("a", int64(3)))}, // structs in an array
+		[]any{true, nil, 1.5, "s", []any{}},                                        // stays []any
+	}
+	i := func(n int) *int { return &n }
+	k := func(s string) *string { return &s }
+	gt := &jpx.Eq{Op: "gt", L: &jpx.Eq{Op: "get", P: jpx.Path{{K: "at"}}}, R: &jpx.Eq{Op: "const", CK: "int", CI: 1}}
+	hasA := &jpx.Eq{Op: "exists", L: &jpx.Eq{Op: "get", P: jpx.Path{{K: "at"}, {K: "child", Key: "a"}}}, R: &jpx.Eq{Op: "const", CK: "bool", CB: true}}
+	frags := []jpx.Frag{
+		{K: "wild"}, {K: "nth", N: 0}, {K: "nth", N: 1}, {K: "nth", N: -1}, {K: "nth", N: 5}, {K: "child", Key: "a"}, {K: "child", Key: "b"},
+		{K: "union", U: []jpx.UItem{{Idx: i(0)}, {Idx: i(-1)}}}, {K: "union", U: []jpx.UItem{{Key: k("a")}, {Key: k("c")}}}, {K: "union", U: []jpx.UItem{{Key: k("a")}, {Idx: i(1)}}},
+		{K: "slice", S: nil}, {K: "slice", S: []int{0, 2}}, {K: "slice", S: []int{-2}}, {K: "slice", S: []int{0, 4, 2}}, {K: "slice", S: []int{2, 0, -1}}, {K: "slice", S: []int{1, 1}}, {K: "slice", S: []int{-9, 9}},
+		{K: "filter", F: gt}, {K: "filter", F: hasA},
+	}
+	tails := [][]jpx.Frag{nil, {{K: "child", Key: "a"}}, {{K: "nth", N: 0}}, {{K: "wild"}}}
+	n := 0
+	for _, sh := range shapes {
+		for _, wrap := range []string{"root", "in-array", "in-map"} {
+			var data any = sh
+			head := jpx.Path{{K: "root"}}
+			switch wrap {
+			case "in-array":
+				data, head = []any{"pad", sh}, jpx.Path{{K: "root"}, {K: "nth", N: 1}}
+			case "in-map":
+				data, head = m("k", sh, "pad", true), jpx.Path{{K: "root"}, {K: "child", Key: "k"}}
+			}
+			enc := wx.Enc(data)
+			for _, f := range frags {
+				for _, desc := range []bool{false, true} {
+					for _, tail := range tails {
+						p := append(jpx.Path{}, head...)
+						if desc {
+							p = append(p, jpx.Frag{K: "descent"})
+						}
+						p = append(append(p, f), tail...)
+						for _, rep := range []string{"simple", "gen", "typed", "struct", "wrapped"} {
+							vrt.Eval(suite, "agree", Case{Path: p, Data: enc, Rep: rep, Max: 1 + n%3}, Run)
+							n++
+						}
+					}
+				}
+			}
+		}
+	}
+	suite.AddExtra("representation_matrix_cases", int64(n))
+	suite.Extra("representation_matrix_exhaustive_over", fmt.Sprintf("%d container shapes x {root, in an array, in a map} x %d fragments x {direct, under a descent} x %d continuations x 5 representations", len(shapes), len(frags), len(tails)))
 }
 
 func TestPropRandom(t *testing.T) {
